@@ -48,7 +48,7 @@ func nWorkers() int {
 // budget is the largest number of members of one (seed, mutator) family evaluated per tier.
 func budget(ep *entryPoint, mut string, thorough bool) int {
 	q := map[string]int{"none": 1, "prefix": 2000, "subst": 1800, "subst-all": 0, "bitflip": 700, "extend": 8, "derlen": 600, "der-empty": 500, "der-short": 500,
-		"der-drop": 500, "der-dup": 200, "der-int": 500, "field16": 700, "field32": 900, "field64": 400, "text-line": 1200}[mut]
+		"der-drop": 500, "der-dup": 200, "der-int": 500, "field16": 700, "field32": 900, "field64": 400, "text-line": 4000}[mut]
 	if thorough {
 		q = map[string]int{"none": 1, "prefix": 1 << 30, "subst": 1 << 30, "subst-all": 12000, "bitflip": 4000, "extend": 8, "derlen": 1 << 30, "der-empty": 1 << 30, "der-short": 1 << 30,
 			"der-drop": 1 << 30, "der-dup": 1 << 30, "der-int": 6000, "field16": 1 << 30, "field32": 1 << 30, "field64": 1 << 30, "text-line": 1 << 30}[mut]
